@@ -562,6 +562,13 @@ func genC14(p *Pkg) (map[string]string, error) {
 		fmt.Fprintf(&b, "/-- %s's deferred recover: the error is returned iff asUncatchableException recognises the panic value, else re-panicked. -/\ndef %s (recognised : Bool) : String := if recognised then \"err = ex\" else \"panic(x)\"\n\n", rf.name, rf.lean)
 	}
 
+	// ---- wrapJSFunc's `if err != nil` branch as a decision FUNCTION
+	wj, err := c14wrapJSFuncDecision(p)
+	if err != nil {
+		return nil, err
+	}
+	b.WriteString(wj)
+
 	b.WriteString("end GojaModel.Generated.C14\n")
 	return map[string]string{"C14_PanicKinds.lean": b.String()}, nil
 }
@@ -680,4 +687,66 @@ func c14handleThrowDecision(p *Pkg) (string, error) {
 	}
 	b.WriteString("  \"next-iteration\"\n\n")
 	return b.String(), nil
+}
+
+
+// c14wrapJSFuncDecision translates wrapJSFunc's error handling: with an error result the Go error stored in the thrown
+// object's `value` is handed over when ALL nested checks hold, else the error itself; without an error result panic(err).
+func c14wrapJSFuncDecision(p *Pkg) (string, error) {
+	d := p.FuncDecl("Runtime", "wrapJSFunc")
+	if d == nil {
+		return "", fmt.Errorf("wrapJSFunc not found")
+	}
+	n := c14find(d, func(x ast.Node) bool {
+		is, ok := x.(*ast.IfStmt)
+		return ok && c14text(p, is.Cond) == "err != nil" && is.Init == nil
+	})
+	if n == nil {
+		return "", fmt.Errorf("wrapJSFunc: `if err != nil` not found")
+	}
+	outer := n.(*ast.IfStmt)
+	if len(outer.Body.List) != 1 {
+		return "", fmt.Errorf("wrapJSFunc: error branch not in the translatable subset (statements before/after the result-type test)")
+	}
+	rt, ok := outer.Body.List[0].(*ast.IfStmt)
+	if !ok || c14text(p, rt.Cond) != "numOut > 0 && typ.Out(numOut-1) == reflectTypeError" {
+		return "", fmt.Errorf("wrapJSFunc: result-type test not in the translatable subset")
+	}
+	els, ok := rt.Else.(*ast.BlockStmt)
+	if !ok || len(els.List) != 1 || c14text(p, els.List[0]) != "panic(err)" {
+		return "", fmt.Errorf("wrapJSFunc: else branch is not `panic(err)`")
+	}
+	if len(rt.Body.List) != 2 || !strings.HasPrefix(c14text(p, rt.Body.List[1]), "results[numOut-1] = reflect.ValueOf(err)") {
+		return "", fmt.Errorf("wrapJSFunc: error-result branch not in the translatable subset")
+	}
+	want := []struct{ head, name string }{
+		{"ex, ok := err.(*Exception); ok", "isException"},
+		{"exo, ok := ex.val.(*Object); ok", "valIsObject"},
+		{"v := exo.self.getStr(\"value\", nil); v != nil", "hasValue"},
+		{"v.ExportType().AssignableTo(reflectTypeError)", "assignable"},
+	}
+	cur := rt.Body.List[0]
+	var conds []string
+	for _, w := range want {
+		is, ok := cur.(*ast.IfStmt)
+		if !ok || is.Else != nil || len(is.Body.List) != 1 {
+			return "", fmt.Errorf("wrapJSFunc: unwrap chain not in the translatable subset at %q", w.name)
+		}
+		head := c14text(p, is.Cond)
+		if is.Init != nil {
+			head = c14text(p, is.Init) + "; " + head
+		}
+		if head != w.head {
+			return "", fmt.Errorf("wrapJSFunc: unwrap check %q is now %q", w.head, head)
+		}
+		conds = append(conds, w.name)
+		cur = is.Body.List[0]
+	}
+	if c14text(p, cur) != "err = v.Export().(error)" {
+		return "", fmt.Errorf("wrapJSFunc: innermost statement is %q", c14text(p, cur))
+	}
+	return "/-- wrapJSFunc, callee failed with err: what the Go caller of the exported func gets. -/\n" +
+		"def wrapJSFuncDecision (hasErrorResult isException valIsObject hasValue assignable : Bool) : String :=\n" +
+		"  if hasErrorResult then (if " + strings.Join(conds, " && ") + " then \"return v.Export().(error)\" else \"return err\")\n" +
+		"  else \"panic(err)\"\n\n", nil
 }
